@@ -59,13 +59,13 @@ PROPS["C06"] = {
     "level": "exploration",
     "rule": ("roundtrip: 1-4 non-overlapping outputs (file outputs incl. bin_output, dir:: outputs with generated trees of depth<=4: duplicate/empty/1-byte-different contents, exec bits, "
              "relative/dangling/escaping symlinks, empty directories, odd names) are cached through output.Registry.WriteOutputs, each destination is put into a generated prior state "
-             "(identical, absent, parent absent, modified, truncated, longer, exec flipped, stale file/dir/symlink, removed child, file where the directory should be), then Registry.LoadOutputs; "
-             "recursive listings (type, exec bit, size, sha256, link target) before caching and after restore must be equal and Load must succeed. "
+             "(identical, absent, parent absent, modified, truncated, longer, exec flipped, stale file/dir/symlink, removed child, file where the directory should be, non-empty directory where the file should be, symlink to a file or directory OUTSIDE the workspace or dangling symlink at the output path), then Registry.LoadOutputs; "
+             "recursive listings (type, exec bit, size, sha256, link target) before caching and after restore must be equal, Load must succeed and nothing outside the workspace may have been written through a link. "
              "binary-run: real binary; a bin_output target is built, its workspace copy deleted / its directory removed / truncated / chmod-ed, then `grog run <label>` must restore it without re-running the command and execute it (exit 0, expected text printed, exec bit set). "
              "Non-trivial = roundtrip: some output carries an exec file, symlink or empty directory AND some destination prior state is not 'identical'; binary-run: the prior state is not 'intact'; distinct by full case."),
     "assumptions": [
         "permission bits other than the executable bit, directory modes, mtimes and ownership are not compared",
-        "prior states not named by the property (a directory or a symlink where a file output should be) are not generated",
+        "the quantifier of the property (all prior states of the destination path) is taken to include the mirror images of the listed states: a directory or a symlink where a file output should be, a symlink where a directory output should be",
     ],
     "nt_floor": 0.2,
     "parts": [
@@ -74,7 +74,7 @@ PROPS["C06"] = {
          "thorough": {"shards": 16, "checks": 100000, "cap": 7200}},
         {"name": "binary-run", "pkg": "c06", "test": "TestBinaryRun", "binary": True,
          "quick": {"shards": 16, "checks": 48, "cap": 900, "shrinktime": "30s"},
-         "thorough": {"shards": 32, "checks": 1200, "cap": 7200, "shrinktime": "60s"}},
+         "thorough": {"shards": 32, "checks": 4000, "cap": 7200, "shrinktime": "60s"}},
     ],
 }
 
@@ -96,7 +96,7 @@ PROPS["C12"] = {
          "thorough": {"shards": 16, "checks": 1200000, "cap": 7200}},
         {"name": "binary", "pkg": "c12", "test": "TestBinary", "binary": True,
          "quick": {"shards": 24, "checks": 120, "cap": 900, "shrinktime": "30s"},
-         "thorough": {"shards": 32, "checks": 3000, "cap": 7200, "shrinktime": "60s"}},
+         "thorough": {"shards": 32, "checks": 10000, "cap": 7200, "shrinktime": "60s"}},
     ],
 }
 
@@ -120,7 +120,7 @@ PROPS["C11"] = {
          "thorough": {"shards": 16, "checks": 400000, "cap": 7200}},
         {"name": "binary", "pkg": "c11", "test": "TestBinary", "binary": True,
          "quick": {"shards": 16, "checks": 160, "cap": 900, "shrinktime": "30s"},
-         "thorough": {"shards": 32, "checks": 6000, "cap": 7200, "shrinktime": "60s"}},
+         "thorough": {"shards": 32, "checks": 12000, "cap": 7200, "shrinktime": "60s"}},
         {"name": "pairs", "pkg": "c11", "test": "TestEnumPairs", "kind": "enum",
          "quick": {"shards": 8, "cap": 900},
          "thorough": {"shards": 8, "cap": 900}},
@@ -129,8 +129,8 @@ PROPS["C11"] = {
 
 PROPS["C19"] = {
     "level": "exploration",
-    "rule": ("scaling: (family, depth, width, operation) with family in ladder(d,w) [w^d paths], dense DAG(n) [2^(n-2) paths], chain; operation in {select-for-build, descendants, ancestors} decided by deterministic work counters "
-             "(Select() calls <= 4(V+E); traversal result length <= V) and {BuildGraph with ordered overlapping writers, critical path, Walk with failing root, Walk all-success} decided by process CPU time "
+    "rule": ("scaling: (family, depth, width, operation) with family in ladder(d,w) [w^d paths], dense DAG(n) [2^(n-2) paths], irregular layered DAG (4-20 layers of width 1-4, edge density 30/60/100 %, skip edges, derived from a generated 32-bit value; paths counted exactly), chain; operation in {select-for-build, descendants, ancestors} decided by deterministic work counters "
+             "(Select() calls <= 4(V+E); traversal result length <= V) and {BuildGraph with ordered overlapping writers, critical path, Walk with failing root, Walk all-success, FindCycle on the acyclic graph and with one cycle closing over the whole depth (the reported cycle must be a closed walk along edges), GetSelectedSubgraph} decided by process CPU time and a 90 s watchdog "
              "(> 2 s and > 50x the chain with the same node count; a correct run is < 10 ms). Non-trivial = non-chain family with >= 4096 dependency paths; distinct by full case."),
     "assumptions": [
         "nothing is proved about complexity; the check separates path enumeration from node/edge traversal on families where they differ by >= 3 orders of magnitude",
@@ -141,7 +141,7 @@ PROPS["C19"] = {
     "parts": [
         {"name": "scaling", "pkg": "c19", "test": "TestScaling",
          "quick": {"shards": 4, "checks": 400, "cap": 900},
-         "thorough": {"shards": 4, "checks": 6000, "cap": 7200}},
+         "thorough": {"shards": 8, "checks": 40000, "cap": 7200}},
     ],
 }
 
@@ -195,7 +195,7 @@ PROPS["C03"] = {
          "thorough": {"shards": 8, "checks": 6000, "cap": 7200}},
         {"name": "binary", "pkg": "c03", "test": "TestBinary", "binary": True,
          "quick": {"shards": 24, "checks": 48, "cap": 900, "shrinktime": "60s"},
-         "thorough": {"shards": 32, "checks": 1200, "cap": 7200, "shrinktime": "120s"}},
+         "thorough": {"shards": 32, "checks": 4000, "cap": 7200, "shrinktime": "120s"}},
     ],
 }
 
@@ -266,7 +266,7 @@ _HIST_ASSUME = [
     "dot-files, symlinked inputs, docker outputs, overlapping outputs and commands reading undeclared files are outside the generator",
 ]
 
-def _hist(pid, rule, nt, quick=96, thorough=3000, extra_parts=None, floor=0.15):
+def _hist(pid, rule, nt, quick=96, thorough=10000, extra_parts=None, floor=0.15):
     parts = [{"name": "histories", "pkg": pid.lower(), "test": "TestHistories", "binary": True,
               "quick": {"shards": 32, "checks": quick, "cap": 1500, "shrinktime": "90s"},
               "thorough": {"shards": 48, "checks": thorough, "cap": 14400, "shrinktime": "300s"}}]
@@ -298,7 +298,7 @@ PROPS["C05"] = _hist("C05",
                   "quick": {"shards": 12, "checks": 24, "cap": 900}, "thorough": {"shards": 24, "checks": 400, "cap": 7200}}])
 PROPS["C15"] = _hist("C15",
     "lock-step histories: every build of a C01-style history (all edit kinds, taint, aliases, dir and bin outputs) is played twice: load_outputs=all and load_outputs=minimal in separate workspaces and caches. Exit status and executed set must be equal; every output of a target executed under minimal must equal the expectation (so every dependency output it read, also through aliases, was present and current).",
-    "a minimal-mode build executed a target while >=1 of its direct dependencies was a cache hit (outputs had to be loaded on demand)", quick=64, thorough=1500)
+    "a minimal-mode build executed a target while >=1 of its direct dependencies was a cache hit (outputs had to be loaded on demand)", quick=64, thorough=5000)
 
 PROPS["C20"] = {
     "level": "exploration",
@@ -316,7 +316,7 @@ PROPS["C20"] = {
     "parts": [
         {"name": "queries", "pkg": "c20", "test": "TestQueries", "binary": True,
          "quick": {"shards": 24, "checks": 120, "cap": 1500, "shrinktime": "60s"},
-         "thorough": {"shards": 32, "checks": 4000, "cap": 14400, "shrinktime": "120s"}},
+         "thorough": {"shards": 32, "checks": 12000, "cap": 14400, "shrinktime": "120s"}},
     ],
 }
 
@@ -335,7 +335,7 @@ PROPS["C18"] = {
     "parts": [
         {"name": "interrupts", "pkg": "c18", "test": "TestInterrupts", "binary": True,
          "quick": {"shards": 32, "checks": 128, "cap": 1500, "shrinktime": "60s"},
-         "thorough": {"shards": 32, "checks": 3000, "cap": 14400, "shrinktime": "120s"}},
+         "thorough": {"shards": 32, "checks": 6000, "cap": 14400, "shrinktime": "120s"}},
     ],
 }
 
@@ -365,11 +365,11 @@ PROPS["C07"] = {
         {"name": "wrapper-faults", "pkg": "c07", "test": "TestWrapperFaults",
          "quick": {"shards": 4, "checks": 3000, "cap": 600}, "thorough": {"shards": 8, "checks": 150000, "cap": 3600}},
         {"name": "op-faults", "pkg": "c07", "test": "TestOpFaults",
-         "quick": {"shards": 12, "checks": 12, "cap": 1500, "shrinktime": "60s"}, "thorough": {"shards": 32, "checks": 96, "cap": 14400, "shrinktime": "120s"}},
+         "quick": {"shards": 12, "checks": 12, "cap": 1500, "shrinktime": "60s"}, "thorough": {"shards": 32, "checks": 240, "cap": 14400, "shrinktime": "120s"}},
         {"name": "crash-in-set", "pkg": "c07", "test": "TestCrashInSet",
          "quick": {"shards": 8, "checks": 400, "cap": 900}, "thorough": {"shards": 16, "checks": 8000, "cap": 7200}},
         {"name": "kill-histories", "pkg": "c07", "test": "TestKillHistories", "binary": True,
-         "quick": {"shards": 32, "checks": 64, "cap": 1500, "shrinktime": "90s"}, "thorough": {"shards": 32, "checks": 1600, "cap": 14400, "shrinktime": "300s"}},
+         "quick": {"shards": 32, "checks": 64, "cap": 1500, "shrinktime": "90s"}, "thorough": {"shards": 32, "checks": 5000, "cap": 14400, "shrinktime": "300s"}},
     ],
 }
 
@@ -390,6 +390,6 @@ PROPS["C08"] = {
         {"name": "wrapper-ops", "pkg": "c08", "test": "TestWrapperOps",
          "quick": {"shards": 4, "checks": 4000, "cap": 600}, "thorough": {"shards": 8, "checks": 200000, "cap": 3600}},
         {"name": "machines", "pkg": "c08", "test": "TestMachines", "binary": True,
-         "quick": {"shards": 24, "checks": 72, "cap": 1500, "shrinktime": "90s"}, "thorough": {"shards": 32, "checks": 1600, "cap": 14400, "shrinktime": "300s"}},
+         "quick": {"shards": 24, "checks": 72, "cap": 1500, "shrinktime": "90s"}, "thorough": {"shards": 32, "checks": 5000, "cap": 14400, "shrinktime": "300s"}},
     ],
 }
